@@ -11,7 +11,7 @@ from fractions import Fraction as F
 from vlib.common import Result, run_driver, build_driver, REPO
 
 PID = "C17"
-LEAN_MODULES = ["BemppVerif.Props.C17"]
+LEAN_MODULES = ["BemppVerif.Props.C17", "BemppVerif.Lemmas.FmmKernelFacts"]
 N = "BemppVerif.C17."
 THEOREMS = [N + t for t in [
     "fmm_matvec_eq_dense", "fmm_matvec_eq_dense_dof", "fmm_matvec_eq_dense_two_grids", "fmm_potential_eq_dense",
@@ -19,6 +19,11 @@ THEOREMS = [N + t for t in [
     "transform_indexing_partial", "transform_indexing_counterexample",
     "dl_from_gradient", "adl_from_gradient", "fmm_dl_eq_dense", "fmm_adl_eq_dense",
 ]]
+# near-field kernels (api/fmm/helpers.py, re-traced on every run) = the canonical Green's functions the dense kernels compute
+FK = "BemppVerif.FmmKernels."
+THEOREMS += ([FK + f"{fam}_{w}_{br}" for fam in ("laplace", "modified") for w in ("c0", "grad_nx", "grad_ny") for br in ("im0", "imnz")]
+             + [FK + f"helmholtz_{w}_{br}_{part}" for w in ("c0", "grad_nx", "grad_ny") for br in ("im0", "imnz")
+                for part in ("re", "im")])
 PARTIAL = {
     N + "point_map_indexing_partial": "statement about the code BEFORE the repair 3660968 (arrays sized by the support "
     "addressed with the grid element index: needs support = all elements; point_map_indexing_counterexample shows the old "
@@ -33,6 +38,9 @@ PARTIAL = {
     "and the oracle only; near_field_is_adjacent_pairs is an explicit hypothesis (C11 discharges it on the grid model)",
 }
 TRUSTED = [
+    "Tie B for the near-field kernels: vlib/symtrace.py runs the undecorated source of api/fmm/helpers.py {laplace,"
+    "modified_helmholtz,helmholtz}_kernel on symbolic points; Lemmas/FmmKernelFacts.lean proves the traces equal G and its "
+    "gradient contracted with n_x / n_y (the canonical forms the dense kernels are proved to equal in Lemmas/KernelFacts.lean)",
     "hand model lean/BemppVerif/Model/Fmm.lean of map_space_to_points_impl, map_to_localised_space, the transform index "
     "arrays, the near-field matrix and make_default_scalar, tied by differential comparison through the native driver",
     "vlib/exafmm_stub: exact direct summation standing in for exafmm-t (exafmm itself is not verified: the property is "
@@ -76,7 +84,10 @@ QUICK_BUDGET_S = float(os.environ.get("C17_QUICK_BUDGET_S", "195"))  # quick tie
 
 
 def generate(ctx):
-    return {}
+    from props import c20, shared
+    kinfo, _ = shared.gen_kernels()            # Gen/NumbaKernels.lean (canonical forms are stated against these)
+    _fmm, _shp, changed = c20.gen_fmm_kernels()  # Gen/FmmKernels.lean: traces of the Numba FMM helper kernels
+    return dict(fmm_helper_kernels=len(_fmm), fmm_kernels_changed=bool(changed), **{k: v for k, v in kinfo.items() if k != "changed"})
 
 
 # ------------------------------------------------------------------------------------------------
@@ -832,6 +843,10 @@ def oracle(ctx, deep=False, only=None):
             ctx.log(f"oracle: family {family}")
             compare(family, f, gA, gA, "whole", "same")
             compare(family, f, gA, gA, "segment", "same")
+            if not deep and family != "lap_sl":
+                # test space on the whole grid, trial space on a segment: the maps of the two spaces differ (seed C17-b
+                # used the trial space's map for testing, invisible while both spaces coincide)
+                compare(family, f, gA, gA, "segment-domain", "same")
             if deep or family == "lap_sl":
                 compare(family, f, gA, gB, "whole", "two-grids")
             if deep:
@@ -899,6 +914,13 @@ def oracle(ctx, deep=False, only=None):
         for name in psel[1:]:
             if budget_ok("potential " + name):
                 run_potential(name)
+        # 3. quick tier: one Maxwell operator per run (E / M alternating with the seed, complex k) with DIFFERENT test and
+        #    trial supports; the evaluators of the gradient-based and Maxwell operators are Python glue without a theorem
+        if not deep and not any(f_.startswith("max_") for f_ in fsel):
+            mx = "max_M_ck" if ctx.seed % 2 == 1 else "max_E_ck"
+            if budget_ok("family " + mx, limit=QUICK_BUDGET_S + 60):
+                ctx.log(f"oracle: family {mx} (test whole grid / trial segment)")
+                compare(mx, fam[mx], gA, gA, "segment-domain", "same")
         fmmstub.clear_caches()
     res.stats["oracle_skipped_for_time_budget"] = skipped_for_time
     res.stats.update({"oracle_" + k: v for k, v in stats.items()})
